@@ -14,6 +14,8 @@ EXPLANATION = (
     "collection whose get(idx - 1)? ends next() (R6); in every nth the caller's n (usize::MAX included) takes part in overflow-capable "
     "arithmetic only after a dominating comparison of n itself or through min / saturating_* / checked_* (R7). "
     "R8: the bulk step of nth() feeds exactly the skills next() feeds and under the same private conditions (a container's forwarding process() is inlined; guards shared by every feed of a function — position, loop — are factored out). "
+    "R9: the n >= len() branch of nth() leaves the calculator exhausted: it drains with next(), or it sets the position to exactly the end len() measures (linear forms) and next() decides exhaustion from that position rather than from a separate cursor. "
+    "R10: dimension check — an integer parameter of a private helper called from the gradual calculators is asked either with positions (self.idx-based, lengths) or with step counts (the caller's n, len(), distances) at all call sites, never both (a step count equals a position only for a step that starts at 0). "
     "nth(n) == n+1 x next, len == remaining, behaviour after exhaustion are arithmetic over runtime state: NOT decided.")
 
 GD = 'any::difficulty::gradual::GradualDifficulty'
@@ -247,6 +249,8 @@ def run(ctx):
     r4_r5(ctx, F)
     r7(ctx, F)
     r8(ctx, F)
+    r9(ctx, F)
+    r10(ctx, F)
     ctx.not_decided('nth(n) == n+1 next calls; len()/size_hint() == number of values still to come; None after exhaustion without panic')
 
 
@@ -493,3 +497,240 @@ def r8(ctx, F):
                         bad='%s: the skill `%s` is fed under different conditions by next() (%s) and by the bulk step of nth() (%s): nth(n) no longer equals n+1 next() calls' % (
                             adt, name, sorted(map(sorted, ga)) or 'always', sorted(map(sorted, gb)) or 'always'))
     ctx.floor('C15-R8', n, 8, 'skills fed by next() over the four modes')
+
+
+# ---- R9: the overshoot branch of nth() leaves the calculator exhausted
+def _linform(v, depth=0):
+    """linear form {atom text: coefficient} of an integer expression (checked / plain Add and Sub, casts transparent); other sub-expressions are atoms"""
+    v = prov.strip(v, names={'from', 'into'})
+    if depth < 30:
+        if v[0] == 'field' and str(v[2]) == '0' and v[1][0] == 'binop' and v[1][1].endswith('WithOverflow'):
+            return _linform(('binop', v[1][1][:-len('WithOverflow')], v[1][2], v[1][3]), depth + 1)
+        if v[0] == 'cast':
+            return _linform(v[2], depth + 1)
+        if v[0] == 'binop' and v[1] in ('Add', 'Sub', 'AddUnchecked', 'SubUnchecked'):
+            a, b = _linform(v[2], depth + 1), _linform(v[3], depth + 1)
+            sgn = 1 if v[1].startswith('Add') else -1
+            out = dict(a)
+            for k_, c in b.items():
+                out[k_] = out.get(k_, 0) + sgn * c
+                if out[k_] == 0:
+                    del out[k_]
+            return out
+        if v[0] == 'call' and v[1].get('name') in ('saturating_sub', 'wrapping_sub', 'saturating_add', 'wrapping_add') and len(v[2]) == 2:
+            return _linform(('binop', 'Sub' if 'sub' in v[1]['name'] else 'Add', v[2][0], v[2][1]), depth + 1)
+    c = prov.const_val(v)
+    if c is not None:
+        try:
+            return {'1': int(c)} if int(c) != 0 else {}
+        except ValueError:
+            pass
+    return {prov.show(v, maxdepth=8): 1}
+
+
+def r9(ctx, F):
+    """`nth(n)` with n >= len() returns None and must have consumed everything.  Draining with next() does that by construction.  A shortcut that only moves
+    the position is right only if (a) it moves it to exactly the end len() measures, and (b) next() decides "nothing left" from that position — not
+    from a separate cursor the shortcut leaves untouched."""
+    n = 0
+    for mode in MODES:
+        adt = gd_adt(mode)
+        nxt = F.method(adt, 'next', trait='std::iter::Iterator')
+        nth = F.method(adt, 'nth', trait='std::iter::Iterator')
+        ln = F.method(adt, 'len', trait='std::iter::ExactSizeIterator')
+        if not (nxt and nth and ln):
+            continue                                  # reported by R4
+        lrv = prov.prov_of(ln).return_value()
+        M = idxf = None
+        for alt in (lrv[1] if lrv[0] == 'phi' else [lrv]):
+            a = prov.strip(alt, names=set())
+            if a[0] == 'field' and str(a[2]) == '0' and a[1][0] == 'binop' and a[1][1] in ('SubWithOverflow', 'Sub'):
+                pp = as_param_path(a[1][3], through_calls=False)
+                if pp is not None and pp[0] == 1 and len(pp[1]) == 1:
+                    M, idxf = a[1][2], pp[1][0]
+            elif a[0] == 'call' and a[1].get('name') in ('saturating_sub',) and len(a[2]) == 2:
+                pp = as_param_path(a[2][1], through_calls=False)
+                if pp is not None and pp[0] == 1 and len(pp[1]) == 1:
+                    M, idxf = a[2][0], pp[1][0]
+        if M is None:
+            ctx.violation('C15-R9', '%s:len-shape' % mode, '%s::len is not `<end> - self.<position>`: %s' % (adt, prov.show(lrv, maxdepth=4)), ln.where())
+            continue
+        P = prov.prov_of(nth)
+        # overshoot branch: blocks that know `n >= len()`
+        over = set()
+        for bi in range(len(nth.blocks)):
+            if nth.blocks[bi].get('cleanup') or bi not in nth.cfg.reach:
+                continue
+            for c, lab in arms.bool_facts(nth, bi):
+                c = prov.strip(c, names={'likely', 'unlikely'})
+                if c[0] != 'binop' or c[1] not in ('Ge', 'Gt', 'Lt', 'Le'):
+                    continue
+                sides = [prov.strip(x, names=set()) for x in (c[2], c[3])]
+                isn = [as_param_path(x, through_calls=False) == (2, ()) for x in sides]
+                islen = [x[0] == 'call' and x[1].get('name') == 'len' and as_param_path(x[2][0]) == (1, ()) for x in sides]
+                ge = (c[1] in ('Ge', 'Gt') and isn[0] and islen[1] and lab == 'true') or (c[1] in ('Lt', 'Le') and isn[0] and islen[1] and lab == 'false') or \
+                     (c[1] in ('Le', 'Lt') and islen[0] and isn[1] and lab == 'true') or (c[1] in ('Ge', 'Gt') and islen[0] and isn[1] and lab == 'false')
+                if ge:
+                    over.add(bi)
+        if not over:
+            ctx.violation('C15-R9', '%s:overshoot' % mode, '%s::nth has no branch for n >= len()' % adt, nth.where())
+            continue
+        n += 1
+        drains = [bi for bi, t in nth.calls() if bi in over and t['func'].get('name') == 'next' and (t['func'].get('impl_adt') or t['func'].get('path') or '').find('GradualDifficulty') >= 0]
+        if drains:
+            ctx.ok('C15-R9', '%s:overshoot' % mode, '%s::nth drains with next() when n >= len()' % adt, nth.where())
+            continue
+        jumps = []
+        for bi, si, s_ in nth.assigns():
+            if bi in over and s_['p']['l'] == 1 and [e.get('f') for e in s_['p'].get('proj', []) if isinstance(e, dict) and 'f' in e] == [idxf]:
+                jumps.append((bi, s_, P.rvalue(s_['rv'], bi, si)))
+        bad = None
+        if not jumps:
+            bad = 'the n >= len() branch neither drains with next() nor moves the position: the calculator is not exhausted after returning None'
+        else:
+            for bi, s_, v in jumps:
+                if _linform(v) != _linform(M):
+                    bad = 'the n >= len() branch sets self.%s = `%s`, but len() measures `%s - self.%s` and the two are not the same expression: unless they agree for every map and every passed_objects, the position passes ' \
+                          '(len() underflows) or misses the end' % (idxf, prov.show(v, maxdepth=4)[:120], prov.show(M, maxdepth=4)[:120], idxf)
+            if bad is None:
+                # (b) what makes next() stop?
+                Pn = prov.prov_of(nxt)
+                for b2, b in enumerate(nxt.blocks):
+                    t = b['t']
+                    if b.get('cleanup') or not (t['k'] == 'call' and t['func'].get('name') == 'from_residual' and t.get('dest') and t['dest']['l'] == 0):
+                        continue
+                    for c, lab in arms.bool_facts(nxt, b2):
+                        if lab not in ('Break', 'None') or c[0] != 'discr':
+                            continue
+                        src = [x for x in prov.walk(c, limit=200) if x[0] == 'call' and x[1].get('name') != 'branch']
+                        uses_idx = any(as_param_path(x, through_calls=False) == (1, (idxf,)) for x in prov.walk(c, limit=400))
+                        if src and not uses_idx:
+                            cur = as_param_path(src[0][2][0]) if src[0][2] else None
+                            curf = cur[1][0] if cur and cur[0] == 1 and cur[1] else None
+                            touched = any(t2['args'] and (as_param_path(P.call_args(b3)[0]) or (0, ('',)))[1][:1] == (curf,) for b3, t2 in nth.calls() if b3 in over) or \
+                                any(b3 in over and s3['p']['l'] == 1 and [e.get('f') for e in s3['p'].get('proj', []) if isinstance(e, dict) and 'f' in e][:1] == [curf] for b3, _, s3 in nth.assigns())
+                            if not touched:
+                                bad = 'the n >= len() branch only moves self.%s, but next() decides "nothing left" from `%s` (self.%s), which the branch leaves where it was: ' \
+                                      'after nth() returned None, next() produces values again' % (idxf, prov.show(src[0], maxdepth=3)[:100], curf)
+        ctx.require(bad is None, 'C15-R9', '%s:overshoot' % mode, '%s::nth: the n >= len() branch jumps to exactly the end len() measures, and next() stops by that position' % adt, nth.where(),
+                    bad='%s::nth: %s' % (adt, bad))
+    ctx.floor('C15-R9', n, 4, 'nth() overshoot branches')
+
+
+# ---- R10: positions and step counts are different quantities
+POS, DELTA, POLY, MIXED = 'position', 'step count', 'const', 'mixed'
+
+
+def _dim(v, idxf, depth=0, memo=None):
+    """dimension of an integer value tree inside a gradual calculator method: `position` (absolute: self.<idx>, lengths / totals kept in self),
+    `step count` (relative: the caller's n, len() = what is left, distances between positions), `const` (fits either), `mixed` (cannot tell)"""
+    if memo is None:
+        memo = {}
+    if id(v) in memo:
+        return memo[id(v)]
+    memo[id(v)] = MIXED
+    v0 = v
+    v = prov.strip(v, names={'from', 'into'})
+    r = MIXED
+    if depth > 40:
+        r = MIXED
+    elif prov.const_val(v) is not None:
+        r = POLY
+    elif v[0] == 'param':
+        r = DELTA if v[1] == 2 else MIXED
+    elif v[0] == 'cast':
+        r = _dim(v[2], idxf, depth + 1, memo)
+    elif v[0] == 'field' and str(v[2]) == '0' and v[1][0] == 'binop' and v[1][1].endswith('WithOverflow'):
+        r = _dim(('binop', v[1][1][:-len('WithOverflow')], v[1][2], v[1][3]), idxf, depth + 1, memo)
+    elif v[0] == 'field':
+        pp = as_param_path(v, through_calls=False)
+        if pp is not None and pp[0] == 1 and pp[1]:
+            r = POS if pp[1][-1] == idxf or pp[1][-1].startswith(('total', 'n_', 'len')) else MIXED
+    elif v[0] in ('len',):
+        r = POS
+    elif v[0] == 'phi':
+        ds = {_dim(a, idxf, depth + 1, memo) for a in v[1]} - {POLY}
+        r = POLY if not ds else (ds.pop() if len(ds) == 1 else MIXED)
+    elif v[0] == 'binop' and v[1] in ('Add', 'Sub', 'AddUnchecked', 'SubUnchecked'):
+        a, b = _dim(v[2], idxf, depth + 1, memo), _dim(v[3], idxf, depth + 1, memo)
+        add = v[1].startswith('Add')
+        if MIXED in (a, b):
+            r = MIXED
+        elif a == POLY and b == POLY:
+            r = POLY
+        elif add:
+            r = POS if POS in (a, b) and (a, b) != (POS, POS) else (DELTA if POS not in (a, b) else MIXED)
+        else:
+            if a == POS and b == POS:
+                r = DELTA
+            elif a == POS:
+                r = POS                      # position - steps / const
+            elif b == POS:
+                r = DELTA                    # const - position: the distance to a fixed position
+            else:
+                r = DELTA
+    elif v[0] == 'call':
+        nm = v[1].get('name')
+        if nm in ('min', 'max') and len(v[2]) == 2:
+            ds = {_dim(a, idxf, depth + 1, memo) for a in v[2]} - {POLY}
+            r = POLY if not ds else (ds.pop() if len(ds) == 1 else MIXED)
+        elif nm in ('saturating_sub', 'wrapping_sub', 'checked_sub', 'saturating_add', 'wrapping_add') and len(v[2]) == 2:
+            r = _dim(('binop', 'Sub' if 'sub' in nm else 'Add', v[2][0], v[2][1]), idxf, depth + 1, memo)
+        elif nm == 'len' and v[2]:
+            pp = as_param_path(v[2][0])
+            if pp is not None and pp[0] == 1:
+                r = DELTA if not pp[1] else POS          # len() of the calculator = what is left; length of a collection it owns = an end position
+        elif nm in ('unwrap_or', 'unwrap_or_default', 'unwrap') and v[2]:
+            r = _dim(v[2][0], idxf, depth + 1, memo)
+    memo[id(v0)] = r
+    return r
+
+
+def r10(ctx, F):
+    """A private helper keyed by "how many objects have been passed" must be asked with a position everywhere.  Handing it the number of objects skipped by
+    THIS call (a step count) is right only when the step starts at position 0."""
+    n = 0
+    for mode in MODES:
+        adt = gd_adt(mode)
+        ln = F.method(adt, 'len', trait='std::iter::ExactSizeIterator')
+        if ln is None:
+            continue
+        idxf = None
+        lrv = prov.prov_of(ln).return_value()
+        for x in prov.walk(lrv, limit=200):
+            if x[0] == 'binop' and x[1] in ('SubWithOverflow', 'Sub'):
+                pp = as_param_path(x[3], through_calls=False)
+                if pp is not None and pp[0] == 1 and len(pp[1]) == 1:
+                    idxf = pp[1][0]
+        if idxf is None:
+            continue
+        uses = {}                 # (helper path, parameter index) -> {dimension: [(caller, line, shown)]}
+        for fn in F.fns:
+            if fn.self_adt != adt or fn.kind != 'AssocFn' or not fn.j.get('inputs') or 'GradualDifficulty' not in str(fn.j['inputs'][0].get('s')):
+                continue
+            P = prov.prov_of(fn)
+            for bi, t in fn.calls():
+                f = t['func']
+                g = F.fn(f.get('path') or '') if f.get('local') else None
+                if g is None or g.impl_trait or g.path == fn.path or g.name in ('next', 'nth', 'len', 'new'):
+                    continue
+                args = P.call_args(bi)
+                at_origin = any(prov.strip(c, names={'likely', 'unlikely'})[0] == 'binop' and prov.strip(c)[1] == 'Eq' and lab == 'true' and
+                                as_param_path(prov.strip(c)[2], through_calls=False) == (1, (idxf,)) and prov.const_val(prov.strip(c)[3]) == '0'
+                                for c, lab in arms.bool_facts(fn, bi))
+                for i, inp in enumerate(g.j.get('inputs') or []):
+                    if inp.get('s') not in ('usize', 'u32', 'u64', 'isize', 'i32', 'i64') or i >= len(args):
+                        continue
+                    d = _dim(args[i], idxf)
+                    if d == DELTA and at_origin:
+                        d = POLY                # counted from position 0 a step count IS a position
+                    uses.setdefault((g.path, i + 1), {}).setdefault(d, []).append((fn, t.get('ln'), prov.show(args[i], maxdepth=3)[:60]))
+        for (gp, k), dims in sorted(uses.items()):
+            n += 1
+            both = POS in dims and DELTA in dims
+            ctx.require(not both, 'C15-R10', '%s:%s#%d' % (mode, gp.split('::')[-1], k), '%s parameter %d is asked with %s' % (gp, k, sorted(dims)), F.fn(gp).where(),
+                        bad='%s: parameter %d receives a position (`%s` in %s, line %s) at one call and a step count (`%s` in %s, line %s) at another: the two agree only for a step that starts at '
+                            'position 0 — after one next(), nth(k >= 1) looks up the wrong entry' % (
+                                gp, k, dims.get(POS, [(None, 0, '')])[0][2], (dims.get(POS) or [(ln,)])[0][0].name, dims.get(POS, [(0, 0)])[0][1],
+                                dims.get(DELTA, [(None, 0, '')])[0][2], (dims.get(DELTA) or [(ln,)])[0][0].name, dims.get(DELTA, [(0, 0)])[0][1]) if both else '')
+    ctx.ok('C15-R10', 'scan', '%d integer parameter(s) of private helpers called from the gradual calculators classified as position / step count' % n)
